@@ -582,6 +582,11 @@ pub struct ImpostorCase {
     node_id_same_as_member: bool,
     plan: Plan,
     seed: u32,
+    /// after the (refused) handshake the impostor tries again, this time offering to resume with
+    /// whatever the device kept about the first attempt (it knows that handshake's secrets: it
+    /// was one end of it)
+    #[serde(default)]
+    second_attempt: bool,
 }
 
 fn impostor_strategy() -> impl Strategy<Value = ImpostorCase> {
@@ -596,13 +601,15 @@ fn impostor_strategy() -> impl Strategy<Value = ImpostorCase> {
         any::<bool>(),
         prop_oneof![3 => Just(Plan::default()), 1 => adv::plan(6)],
         any::<u32>(),
+        any::<bool>(),
     )
-        .prop_map(|(kind, icac, node_id_same_as_member, plan, seed)| ImpostorCase {
+        .prop_map(|(kind, icac, node_id_same_as_member, plan, seed, second_attempt)| ImpostorCase {
             kind,
             icac,
             node_id_same_as_member,
             plan,
             seed,
+            second_attempt,
         })
 }
 
@@ -653,6 +660,7 @@ fn check_impostor(case: &ImpostorCase) -> Case {
     let adv_log = adv::install(&net, &case.plan);
     let result: RefCell<Option<bool>> = RefCell::new(None);
     let stop;
+    let mut resumption_offered = false;
     {
         let sc = SecureChannel::new(&cd, &());
         let responder = Responder::new("device", sc, &device, 0);
@@ -667,7 +675,32 @@ fn check_impostor(case: &ImpostorCase) -> Case {
         ex.spawn("ctrl.run", async {
             let _ = ctrl.run(&cc, net.end(1), net.end(1), NoNetwork).await;
         });
-        stop = do_handshake(&mut ex, "impostor", 60 * SEC, &ctrl, &cc, &result, fab, DEV_NODE);
+        let mut st = do_handshake(&mut ex, "impostor", 60 * SEC, &ctrl, &cc, &result, fab, DEV_NODE);
+        if case.second_attempt && !matches!(case.kind, Impostor::None) && st != Stop::PollLimit {
+            // What the impostor knows about its first attempt: the resumption id the device
+            // minted in Sigma2 and the ECDH secret. If the device kept a record of that attempt,
+            // this is it - mirrored into the impostor's own cache, so that its initiator offers
+            // the resumption.
+            let claimed = if case.node_id_same_as_member { CTRL_NODE } else { CTRL_NODE + 5 };
+            let recs: Vec<rs_matter::sc::case::resumption::ResumableSession> =
+                device.with_state(|st| st.resumption.iter().filter(|r| r.peer_nodeid == claimed).cloned().collect());
+            if !recs.is_empty() {
+                resumption_offered = true;
+            }
+            for r in recs {
+                ctrl.with_state(|st| {
+                    st.resumption.insert_or_update(rs_matter::sc::case::resumption::ResumableSession {
+                        fab_idx: fab,
+                        peer_nodeid: DEV_NODE,
+                        peer_cat_ids: Default::default(),
+                        resumption_id: r.resumption_id.clone(),
+                        shared_secret: r.shared_secret.clone(),
+                    })
+                });
+            }
+            st = do_handshake(&mut ex, "impostor.again", 60 * SEC, &ctrl, &cc, &result, fab, DEV_NODE);
+        }
+        stop = st;
     }
     if stop == Stop::PollLimit {
         return Case::inconclusive("poll watchdog");
@@ -707,7 +740,10 @@ fn check_impostor(case: &ImpostorCase) -> Case {
                     "the impostor ended up with a CASE session".to_string(),
                 );
             }
-            Case::pass(sigma3_sent).label(format!("{:?}", case.kind))
+            Case::pass(sigma3_sent)
+                .label(format!("{:?}", case.kind))
+                .label(if case.second_attempt { "second-attempt" } else { "single-attempt" })
+                .label(if resumption_offered { "device-kept-a-record-of-the-refused-attempt" } else { "no-record-kept" })
         }
     }
 }
